@@ -95,18 +95,27 @@ class Ctx:
     # ---- workers
     def pool(self):
         if self._pool is None:
-            ctx = mp.get_context('spawn')
-            self._pool = ctx.Pool(self.nworkers, initializer=env.worker_init)
+            from concurrent.futures import ProcessPoolExecutor
+            self._pool = ProcessPoolExecutor(self.nworkers, mp_context=mp.get_context('spawn'), initializer=env.worker_init)
         return self._pool
 
     def close(self):
         if self._pool is not None:
-            self._pool.terminate()
-            self._pool.join()
+            procs = list((getattr(self._pool, '_processes', None) or {}).values())
+            try:
+                self._pool.shutdown(wait=False, cancel_futures=True)
+            except Exception:
+                pass
+            for p in procs:
+                try:
+                    p.terminate()
+                except Exception:
+                    pass
             self._pool = None
 
     def map(self, fn_path, items, chunk=None, ordered=True):
-        """Run `module:function` on every item over the spawned pool. Returns results in order."""
+        """Run `module:function` on every item over the spawned pool. Returns results in order.
+        A worker that dies (segfault, exit) breaks the pool and becomes a HarnessError (exit 2), never a hang."""
         items = list(items)
         if not items:
             return []
@@ -115,9 +124,14 @@ class Ctx:
         if chunk is None:
             chunk = max(1, min(64, len(items) // (self.nworkers * 4) or 1))
         batches = [(fn_path, items[i:i + chunk]) for i in range(0, len(items), chunk)]
+        from concurrent.futures.process import BrokenProcessPool
         out = []
-        for r in self.pool().imap(_call, batches):
-            out.extend(r)
+        try:
+            for r in self.pool().map(_call, batches):
+                out.extend(r)
+        except BrokenProcessPool as e:
+            self.close()
+            raise HarnessError(f'a pool worker died while running {fn_path} ({e}); no verdict')
         return out
 
     # ---- finish
